@@ -24,6 +24,11 @@ ITEMS = [
     ("p-num", "pattern", "-?[0-9]+(\\.[0-9]+)?"),
     ("p-alt", "pattern", "(a|b)*abb"),
     ("p-bad", "pattern", "[9-0]"),
+    # character classes that are assembled from several parts, and their negations
+    ("p-word", "pattern", "\\w+"),
+    ("p-xdigit", "pattern", "0x[[:xdigit:]]+"),
+    ("p-alnum", "pattern", "[[:alpha:]][[:alnum:]_]*"),
+    ("p-notword", "pattern", "\\W\\S\\D"),
     # failures of every kind, alone and combined: what one failed run leaves behind must not reach the next run
     ("p-syn", "pattern", "(a"),
     ("p-sem-syn", "pattern", "a{4,2}("),
